@@ -33,6 +33,7 @@ FAMILY = {
     'leftrec': "start: e $ ;\ne: e '+' t | t ;\nt: /[0-9]/ | '(' ~ e ')' ;\n",
     'long_rule': "start: " + " | ".join(f"'k{i}' 'v{i}'" for i in range(14)) + " ;\n",
     'many_keywords': ''.join('@@keyword :: ' + ' '.join(f'kw{i:02d}' for i in range(j, j + 6)) + '\n' for j in range(0, 30, 6)) + "@@keyword :: 'a b' zz\nstart: {word}+ $ ;\n@name\nword: /[a-z]+[0-9]*/ ;\n",
+    'wide_tokens': "start: '你好' 'a' | 'a' '＄' $ | {'ü' | /[一-龥]+/}+ ['＄x'] ;\n",
     'params_null': "start: r q ;\nr(A, sep=None, k=2): 'a' ;\nq[B, flag=True]: 'b' | () ;\n",
     'params_based': "start: d | b ;\nb(X): x='a' ;\nd(S, 2) < b: y='b' ;\n",
     'whitespace_none': "@@whitespace :: None\nstart: 'a' 'b' {/ /} $ ;\n",
@@ -87,6 +88,71 @@ def make_quoting(spec):
     n = spec['n']
     body.explain = lambda args: f'{kind} text={mktext(args)!r}'
     body.warm = [tuple(map(ord, w)) for w in ["a", "'", '"', '\\', 'ab', "a'", '\\\\', '/', 'a/', "'\"", 'a\nb', '\\n', 'a b', "/'\"", '\t', '[/]', 'a\\/'] if len(w) == n]
+    return body
+
+
+RAIL_CELLS = ['ab', '你', 'a＄', '', 'x─→']       # narrow, wide (display width 2), holding the end-of-text mark, empty, box-drawing
+
+
+def make_rails(spec):
+    """railmath kernels on rails chosen by selectors: tracks of 1-2 rails whose cells are narrow / wide / ETX-bearing / empty strings, each track padded to one
+    width (the functions' precondition); lay_out, weld, loop and stopnloop must return rails of ONE display width (their own assertion), weld's width is the sum of
+    its operands' widths, and no rail of the input is lost"""
+    from tatsu.railroads import railmath as rm
+    from tatsu.util import unicode_display_len as ulen
+    first = spec['first']
+    ABSENT = len(RAIL_CELLS)
+
+    def track(a, b):
+        rails = [RAIL_CELLS[a]] + ([RAIL_CELLS[b]] if b != ABSENT else [])
+        w = max(ulen(r) for r in rails)
+        return [rm.blankpad(r, w) for r in rails]
+
+    def native(sel):
+        t0 = track(first, sel[0])
+        t1 = track(sel[1], sel[2])
+        tracks = [t0, t1] + ([track(sel[3], ABSENT)] if sel[3] != ABSENT else [])
+        try:
+            for name, f in (('lay_out', lambda: rm.lay_out([t[:] for t in tracks])), ('weld', lambda: rm.weld(*[t[:] for t in tracks])),
+                            ('loop', lambda: rm.loop(t0[:] + t1[:1])), ('stopnloop', lambda: rm.stopnloop(t1[:] + t0[:1]))):
+                out = f()
+                widths = {ulen(r) for r in out}
+                if len(widths) > 1:
+                    return False, name + '-widths-differ', [sorted(widths), out]
+                if not out:
+                    return False, name + '-empty', None
+                if name == 'lay_out' and len(out) != sum(len(t) for t in tracks):
+                    return False, 'lay_out-rail-count', [len(out), [len(t) for t in tracks]]
+                if name == 'weld' and not any(rm.ETX in r for t in tracks[:-1] for r in t):
+                    if widths != {sum(ulen(t[0]) for t in tracks)}:
+                        return False, 'weld-width', [sorted(widths), [ulen(t[0]) for t in tracks]]
+        except AssertionError as e:
+            return False, 'assertion', str(e)[:100]
+        except Exception as e:  # noqa: BLE001
+            return False, 'exception', type(e).__name__ + ': ' + str(e)[:80]
+        return True, 'one-width', None
+
+    cache = {}
+
+    def pick(a, hi):
+        v = 0
+        for i in range(hi):
+            if a == i:
+                v = i
+        return v
+
+    def body(args):
+        if _tracing():
+            sel = (pick(args[0], ABSENT + 1), pick(args[1], ABSENT), pick(args[2], ABSENT + 1), pick(args[3], ABSENT + 1))
+            from crosshair.tracers import NoTracing
+            with NoTracing():
+                cache.clear()
+                cache[sel] = r = native(sel)
+                return r
+        return cache.get(tuple(args)) or native(tuple(args))
+
+    body.explain = lambda args: repr(native(tuple(args)))
+    body.warm = [(ABSENT, 0, ABSENT, ABSENT), (1, 2, 0, 1)]
     return body
 
 
@@ -163,6 +229,10 @@ def plan(tier, seed):
             obs.append(Ob(name=f'{nm}_L{n}', factory='vt.equiv:make_equiv', spec={'program': nm, 'antlr': text, 'variants': ['pretty'], 'n': n,
                                                                                   'warm': ['', 'a.b', 'a=1', 'a.', 'a', '[a]', '[a,b]', 'ab', '(a)', 'i a;', '[ab', 'fa.a;', 'ib=2;']},
                           params=[(f'c{i}', 0, UNI) for i in range(n)], budget={2: 120, 3: 500, 4: 2400}[n], group='antlr'))
+    for first in range(len(RAIL_CELLS)):
+        k = len(RAIL_CELLS)
+        obs.append(Ob(name=f'R_rails_first{first}', factory='vt.props.c13:make_rails', spec={'first': first, 'program': 'railmath'},
+                      params=[('s0', 0, k + 1), ('s1', 0, k), ('s2', 0, k + 1), ('s3', 0, k + 1)], budget=400, group='rails', require_tags=('one-width',)))
     for kind in ('token', 'pattern'):
         for n in ((1, 2) if tier == 'quick' else (1, 2, 3)):
             obs.append(Ob(name=f'Q_{kind}_quoting_len{n}', factory='vt.props.c13:make_quoting', spec={'kind': kind, 'n': n, 'program': kind + '-quoting'},
@@ -175,9 +245,11 @@ def plan(tier, seed):
         'explanation': 'Translation validation of pretty(): for each grammar model of the family the pretty-printed text is compiled again (concretely: it compiles, has the '
                        'same rules/parameters/decorators/base rules, directives and keywords, and pretty() of it is the same text) and the original and recompiled models '
                        'are executed symbolically side by side on a text of n symbolic code points: same outcome, end position and AST. Token/pattern quoting: '
-                       'Token/Pattern._pretty() on symbolic text (re-read through the real grammar natively on each witness). Railroads: every model of the family renders.',
+                       'Token/Pattern._pretty() on symbolic text (re-read through the real grammar natively on each witness). Railroads: every model of the family renders '
+                       '(including tokens of wide characters and of the end-of-text mark); railmath kernels lay_out/weld/loop/stopnloop on rails chosen by selectors (narrow, wide, '
+                       'ETX-bearing, empty, box-drawing cells; 2-3 tracks of 1-2 rails): results have one display width, weld adds widths, lay_out keeps every rail.',
         'functions_encoded': ['tatsu.peg.base:Grammar._pretty/Rule._pretty', 'tatsu.peg.*:*._pretty', 'tatsu.peg.pattern:Pattern._pretty', 'tatsu.peg.basic:Token._pretty', 'tatsu.api.api:compile (bootstrap parse of the pretty text, concrete)',
-                              'tatsu.railroads.walker/railmath (native)'],
+                              'tatsu.railroads.walker (native)', 'tatsu.railroads.railmath:lay_out/weld/weldtwo/loop/stopnloop/looptail/assert_one_length (selectors, native per path)'],
         'bounds': f'{len(names)} grammar models (directives, keywords, parameters, types, based rules, decorators, $->, ->, @meta, alerts, constants, patterns/tokens with slashes, quotes, '
                   f'backslashes, joins, lookaheads, includes, left recursion); text length {2 if tier == "quick" else 0}..{maxn} over all Unicode; token/pattern text of 1..{2 if tier == "quick" else 3} code points',
         'outside': 'longer texts; models translated from ANTLR (g2e) are exercised natively only if the package data is present; rail widths are the function\'s own assertion',
